@@ -17,7 +17,7 @@ import (
 	"verifharness/vh"
 )
 
-var guardDeadline = 20 * time.Second
+var guardDeadline = 180 * time.Second // generous: the box may be heavily loaded; a real hang still ends the run
 
 type scriptStep struct {
 	S     int    `json:"s"`
